@@ -15,9 +15,9 @@ PROP = dict(
                        "Comdex.C20.knownGaps_are_gaps", "Comdex.C20.suspectedGaps_are_gaps", "Comdex.C20.allowList_are_gaps",
                        "Comdex.C20.benign_counters", "Comdex.C20.counter_counterexample", "Comdex.C20.store_counterexample"],
     harness_tests=["TestC20", "TestC20Migrations"],
-    monitors=["store_roundtrip:<module>.<prefix>", "counter_roundtrip:<module>.<counter>.<rule>", "continuation_equal:<op>",
-              "continuation_equal:balances", "custody_roundtrip", "import_accepts_export:<module>",
-              "migration_keeps:<module>.<prefix>", "migration_continuation:<op>", "migration_runs:<migrator>"],
+    # (no `monitors` key: the monitor names are generated per module / prefix / operation — store_roundtrip:<module>.<prefix>,
+    #  counter_roundtrip:<module>.<counter>.<rule>, continuation_equal:<op>, custody_roundtrip, import_accepts_export:<module>,
+    #  migration_keeps:<module>.<prefix>, migration_continuation:<op>, migration_runs:<migrator> — every MON line of the two tests counts)
     trusted_base=[KERNEL_TB, HARNESS_TB,
                   "extract/genesis (go/ast only, ~1500 lines): attributes every store access of x/<m>/keeper to a prefix of "
                   "x/<m>/types/keys.go, follows calls from ExportGenesis / InitGenesis, classifies how InitGenesis restores each id "
